@@ -375,6 +375,19 @@ func (mc *Machine) genQuery(t *rapid.T) []qOp {
 			}
 		} else {
 			o.Col = rapid.SampledFrom(cols).Draw(t, "q-col")
+			if mc.WideInts && rapid.Bool().Draw(t, "q-on-wide-integer") {
+				// full-range layouts: half of the value filters are integer filters on an integer column
+				var ints []string
+				for i, cs := range mc.Sch.Cols {
+					if mc.M.ColLive[i] && cs.Kind.Numeric() && !cs.Kind.Float() && cs.Kind != KBool {
+						ints = append(ints, cs.Name)
+					}
+				}
+				if len(ints) > 0 {
+					o.Col = rapid.SampledFrom(ints).Draw(t, "q-int-col")
+					o.Kind = rapid.SampledFrom([]qKind{qWithInt, qWithUint}).Draw(t, "q-int-kind")
+				}
+			}
 			ci := mc.Sch.col(o.Col)
 			textual := ci >= 0 && mc.Sch.Cols[ci].Kind.Textual()
 			if o.Kind == qWithString || (o.Kind == qWithValue && textual) {
@@ -608,9 +621,9 @@ func TestC04(t *testing.T) {
 		follower := newCollection(sch, column.Options{})
 		defer follower.Close()
 		fed := 0
-		// one layout in three stores full-range integers (edge-biased, all 64 bits in use); Sum and Avg are
+		// every second layout stores full-range integers (edge-biased, all 64 bits in use); Sum and Avg are
 		// then not judged for the integer columns (overflow), the filters, Min and Max are
-		wide := rapid.IntRange(0, 2).Draw(t, "wide-integers") == 0
+		wide := rapid.Bool().Draw(t, "wide-integers")
 		mc.WideInts = wide
 		safe := c04SafeValue
 		if wide {
@@ -776,6 +789,9 @@ func TestC04(t *testing.T) {
 			"prefill":     mc.prefillAction,
 			"bulkDelete":  func(t *rapid.T) { mc.ActBulkDelete(t) },
 			"createIndex": func(t *rapid.T) { mc.ActCreateIndex(t, follower) },
+			// dropped index names come back (on another column or with another rule); one drop in three goes
+			// through DropColumn(indexName), which leaves the old index attached to its column inside the library
+			"dropIndex": func(t *rapid.T) { mc.ActDropIndex(t, follower) },
 		})
 		mc.CheckFull(t, false)
 		AddCounter("C04", "queries", int64(queries))
